@@ -111,7 +111,32 @@ Inductive trace_spec (cp : N) : dbobs -> list op -> list (list phase) -> Prop :=
     trace_spec cp o (OConc a b :: ops) ([pb; pa] :: obs)
 | TS_release : forall o p ops obs,
     p_res p = None -> p_db p = with_held o 0 -> p_evs p = [] -> trace_spec cp (p_db p) ops obs ->
-    trace_spec cp o (ORelease :: ops) ([p] :: obs).
+    trace_spec cp o (ORelease :: ops) ([p] :: obs)
+| TS_park_parked : forall o a bs pre pa ops obs,
+    (* the notification buffer is full and the call gets as far as the back-pressure wait: every
+       call attempted meanwhile is rejected; after the release the call is judged as usual *)
+    parksb cp o a = true ->
+    Forall2 (fun b p => phase_spec cp true o b p) bs pre ->
+    phase_spec cp false (with_held o 0) a pa -> trace_spec cp (p_db pa) ops obs ->
+    trace_spec cp o (OPark a bs :: ops) ((pre ++ [pa]) :: obs)
+| TS_park_free : forall o a bs pa pr ops obs,
+    parksb cp o a = false ->
+    phase_spec cp false o a pa ->
+    p_res pr = None -> p_db pr = with_held (p_db pa) 0 -> p_evs pr = [] ->
+    trace_spec cp (p_db pr) ops obs ->
+    trace_spec cp o (OPark a bs :: ops) ([pa; pr] :: obs).
+
+Lemma rejected_okb_iff : forall cp o bs pre,
+  rejected_okb cp o bs pre = true <-> Forall2 (fun b p => phase_spec cp true o b p) bs pre.
+Proof.
+  induction bs as [|b bs IH]; intros pre; destruct pre as [|p pre]; cbn [rejected_okb].
+  - split; [constructor | reflexivity].
+  - split; [discriminate | intro H; inversion H].
+  - split; [discriminate | intro H; inversion H].
+  - rewrite Bool.andb_true_iff, phase_okb_iff, IH. split.
+    + intros [H1 H2]. constructor; assumption.
+    + intro H. inversion H; subst. split; assumption.
+Qed.
 
 Lemma trace_okb_iff : forall cp ops o obs, trace_okb cp o ops obs = true <-> trace_spec cp o ops obs.
 Proof.
@@ -120,7 +145,25 @@ Proof.
     + destruct obs; [constructor | discriminate].
     + intro H. inversion H. reflexivity.
   - split.
-    + intro H. destruct op as [c | a b |]; cbn [trace_okb] in H.
+    + intro H. destruct op as [c | a b | | a bs]; cbn [trace_okb] in H.
+      4:{ destruct obs as [|ps obs]; [discriminate|].
+          destruct (split_last ps) as [[pre lst]|] eqn:Esl; [|discriminate].
+          pose proof (split_last_some _ _ _ Esl) as Hps. subst ps.
+          destruct (parksb cp o a) eqn:Ep.
+          - apply Bool.andb_true_iff in H. destruct H as [H Ht].
+            apply Bool.andb_true_iff in H. destruct H as [Hrej Hpa].
+            apply TS_park_parked; [exact Ep | apply rejected_okb_iff; exact Hrej
+                                  | apply phase_okb_iff; exact Hpa | apply IH; exact Ht].
+          - destruct pre as [|pa [|? ?]]; try discriminate.
+            apply Bool.andb_true_iff in H. destruct H as [H Ht].
+            apply Bool.andb_true_iff in H. destruct H as [H Hnil].
+            apply Bool.andb_true_iff in H. destruct H as [H Hdb].
+            apply Bool.andb_true_iff in H. destruct H as [Hpa Hnone].
+            apply dbobs_eqb_eq in Hdb.
+            apply (TS_park_free cp o a bs pa lst);
+              [exact Ep | apply phase_okb_iff; exact Hpa
+              | destruct (p_res lst); [discriminate | reflexivity] | exact Hdb
+              | destruct (p_evs lst); [reflexivity | discriminate] | apply IH; exact Ht]. }
       * destruct obs as [|[|p [|? ?]] obs]; try discriminate.
         apply Bool.andb_true_iff in H. destruct H as [Hp Ht].
         constructor; [apply phase_okb_iff; exact Hp | apply IH; exact Ht].
@@ -137,11 +180,17 @@ Proof.
                      | destruct (p_evs p); [reflexivity | discriminate] | apply IH; exact Ht].
     + intro H.
       inversion H as [ | ? c' p ops' obs' Hp Ht | ? a' b' pa pb ops' obs' Hpb Hpa Ht
-                       | ? p ops' obs' Hr Hd He Ht]; subst; cbn [trace_okb].
+                       | ? p ops' obs' Hr Hd He Ht
+                       | ? a' bs' pre pa ops' obs' Hpk Hrej Hpa Ht
+                       | ? a' bs' pa pr ops' obs' Hpk Hpa Hr Hd He Ht]; subst; cbn [trace_okb].
       * rewrite (proj2 (phase_okb_iff _ _ _ _ _) Hp), (proj2 (IH _ _) Ht). reflexivity.
       * rewrite (proj2 (phase_okb_iff _ _ _ _ _) Hpb), (proj2 (phase_okb_iff _ _ _ _ _) Hpa),
           (proj2 (IH _ _) Ht). reflexivity.
       * rewrite (proj2 (IH _ _) Ht), Hr, Hd, He, dbobs_eqb_refl. reflexivity.
+      * rewrite split_last_app, Hpk, (proj2 (rejected_okb_iff _ _ _ _) Hrej),
+          (proj2 (phase_okb_iff _ _ _ _ _) Hpa), (proj2 (IH _ _) Ht). reflexivity.
+      * cbn [split_last]. rewrite Hpk, (proj2 (IH _ _) Ht), (proj2 (phase_okb_iff _ _ _ _ _) Hpa), Hr, Hd, He,
+          dbobs_eqb_refl. reflexivity.
 Qed.
 
 (* ---------------- non-vacuity ---------------- *)
@@ -158,22 +207,31 @@ Definition ex_ops : list op :=
     OConc (Commit (ex_block 7 false [5]) true 0 6 true true)
           (Exec (ex_block 8 false []) true (Some (0, 7)) true);
     ORelease;
-    OCall (Exec (ex_block 8 false []) true (Some (0, 8)) true) ].
+    OCall (Exec (ex_block 8 false []) true (Some (0, 8)) true);
+    OCall (Exec (ex_block 9 false []) true (Some (0, 9)) true);
+    OCall (Exec (ex_block 10 false []) true (Some (0, 10)) true);
+    (* the buffer (3) is full after 8, 9, 10: block 11 parks, a second import of 11 and one of
+       12 are rejected meanwhile *)
+    OPark (Exec (ex_block 11 false []) true (Some (0, 11)) true)
+          [Exec (ex_block 11 false [6]) true (Some (0, 12)) true;
+           Commit (ex_block 12 false []) false 0 13 true true] ].
 
 Example ex_wf : Forall wf_op ex_ops.
 Proof.
   unfold ex_ops.
   repeat (apply Forall_cons;
-          [cbn [wf_op]; unfold wf_call, wf_block, u32max; cbn; try split; try lia; exact Logic.I |]).
+          [cbn [wf_op]; unfold wf_call, wf_block, u32max; cbn; try split; try lia;
+           try exact Logic.I; repeat (constructor; try (unfold wf_call, wf_block, u32max; cbn; lia)) |]).
   apply Forall_nil.
 Qed.
 
 Example ex_successes :
-  successes (calls_of ex_ops (run (init 3 [] []) ex_ops)) = [5; 6; 7; 8] /\
-  announced (all_events (run (init 3 [] []) ex_ops)) = [5; 6; 7; 8] /\
+  successes (calls_of ex_ops (run (init 3 [] []) ex_ops)) = [5; 6; 7; 8; 9; 10; 11] /\
+  announced (all_events (run (init 3 [] []) ex_ops)) = [5; 6; 7; 8; 9; 10; 11] /\
   map (fun ph => map p_res ph) (run (init 3 [] []) ex_ops) =
     [[Some ROk]; [Some ROk]; [Some (RIncorrectBlockHeight 7 6)]; [Some (RNotUnique 7)];
-     [Some RInvalidDbStateAfterExec]; [Some RSemaphore; Some ROk]; [None]; [Some ROk]].
+     [Some RInvalidDbStateAfterExec]; [Some RSemaphore; Some ROk]; [None]; [Some ROk]; [Some ROk];
+     [Some ROk]; [Some RSemaphore; Some RSemaphore; Some ROk]].
 Proof. vm_compute. repeat split. Qed.
 
 (* ---------------- the property statements ---------------- *)
@@ -235,4 +293,20 @@ Proof.
   destruct (replay_meaning_all _ _ _ _ H) as [HA [HC HS]].
   split; [exact HA|]. split; [|exact HS].
   apply chain_none_consecutive. exact HC.
+Qed.
+
+(* a call parked on back-pressure keeps the guard: every call attempted meanwhile is rejected and
+   changes nothing, and after the release the parked call ends exactly as if it had been made
+   alone at that point *)
+Lemma parked_rejects_all : forall st a bs, busy st = false -> parks st a = true ->
+  step st (OPark a bs) =
+  (fst (step (set_held st 0) (OCall a)),
+   map (fun _ => {| p_res := Some RSemaphore; p_db := obs_of st; p_evs := [] |}) bs ++
+   snd (step (set_held st 0) (OCall a))).
+Proof.
+  intros st a bs Hb Hp. cbn [step]. rewrite Hb, Hp. cbn [negb andb].
+  rewrite (run_calls_busy bs (set_busy st true) eq_refl).
+  unfold run_call, lock. cbn [busy set_held]. rewrite Hb.
+  change (set_busy (set_held st 0) true) with (set_held (set_busy st true) 0).
+  destruct (body (set_held (set_busy st true) 0) a) as [[st4 ra] eva]. reflexivity.
 Qed.
